@@ -173,6 +173,14 @@ def case_pluto(mon, jde):
     case = {"jde": jd}
     try:
         ra, dec = Pluto.geocentric_position(e)
+    except ValueError as ex:
+        # documented refusal, judged with the library's own year()
+        if "outside the 1885-2099 range" in str(ex) and \
+                not (1885.0 <= e.year() <= 2099.0):
+            mon.refusal("pluto:outside 1885-2099")
+            return
+        mon.dev("pluto.direction", dict(case, raised=repr(ex)))
+        return
     except Exception as ex:
         mon.dev("pluto.direction", dict(case, raised=repr(ex)))
         return
@@ -366,7 +374,9 @@ def run(mon, spec):
             case_planet(mon, p, j)
     elif spec["part"] == "pluto":
         for _ in range(spec["n"]):
-            j = jd_of_year(rng.uniform(1885.0, 2099.0))
+            # (jd_of_year counts Julian years from J2000: its 1885.0 lies in
+            # December 1884 of the calendar the library's year() uses)
+            j = jd_of_year(rng.uniform(1885.01, 2098.99))
             mon.begin("pluto", [j])
             case_pluto(mon, j)
     else:
